@@ -131,12 +131,12 @@ def run_shard(shard, tier, seed, wd, res):
             s.op("pairing_product", p[0], q_[0], p_l, q_l)
             s.op("pairing_multi", V.lst([p[0], p_l, p[0]]), V.lst([q_[0], q_[0], q_l]))
     # caller-defined argument types whose conversion re-enters the library (mode 1) or panics (mode 2), then plain again
-    for _ in range(2):
+    for _ in range(2 if idx % 8 == 0 else 0):
         p1, q1, p2, q2 = rng.choice(pool1), rng.choice(pool2), rng.choice(pool1), rng.choice(pool2)
-        s.op("pairing_product_re", p1[0], q1[0], p2[0], q2[0], V.n(1))
         s.op("pairing_product_re", p1[0], q1[0], p2[0], q2[0], V.n(2))
         s.op("pairing_product", p1[0], q1[0], p2[0], q2[0])
         s.op("pairing_product_re", p2[0], q2[0], p1[0], q1[0], V.n(0))
+        s.op("pairing_product_re", p1[0], q1[0], p2[0], q2[0], V.n(1))
         s.op("pairing_re", p1[0], q1[0], V.n(1))
     H.monitor_script(__import__("props.c11", fromlist=["x"]), s.text(), BUILDS, wd, res, shard)
 
